@@ -1,7 +1,252 @@
-(* EntryParser.v — entry points of this area; returns None for codes it does not own *)
-From RBQL Require Import Base Sx.
+(* EntryParser.v — entry points of the Parser area (codes 500-549; 550-599 are reserved for Header).
+   500 cleanup_query            L[fl; text]                      -> text
+   501 separate_string_literals L[fl; text]                      -> L[format; L[lit...]]
+   502 combine_string_literals  L[text; L[lit...]]               -> text
+   503 parse pipeline           L[fl; text]                      -> L[clean; format; L lits; format2; actions_res; details]
+   504 separate_actions         L[fl; with_from; text]           -> L[actions_res; details]
+   505 update assignments       L[fl; text]                      -> res L[L[var; rhs]...]
+   506 parse_join_expression    L[fl; text]                      -> res L[table_id; L[L[v1; v2]...]]
+   507 translate_select_expr.   L[fl; text]                      -> res text
+   508 replace_star_count       L[fl; text]                      -> text
+   509 except variable list     L[fl; text]                      -> L[text...]
+   510 remove_redundant_input_table_name  L[fl; text]            -> text
+   520 python_string_escape_column_name   L[qc; name]            -> text
+   521 py_literal_value         text                             -> option text
+   522 get_variables_map        L[src; query; prefix; opt names; opt first_len] -> vres L[L[key; initialize; index]...]
+   523 header logic             L[kind; flag; opt modifier; L records; opt names] -> L[opt header; L records; has_header; emit_first]
+   524 variables_init_code      L[fmt; vmap; opt vmap; L lits]   -> text
+   525 character probes         L[fl; k; c]                      -> L[ws c; ci_eq k c; dot_ok c]
+   526 eval_bracket_access      L[prefix; vmap; literal]         -> option index
+   527 query_probably_has_dictionary_variable  L[query; name]    -> bool
+   528 C09 pipeline             L[kind; flag; query; probe; L all_records; opt names]
+                                 kind 0 = CSV iterator (header = first record when the effective flag is on; the WITH
+                                 modifier is the one the model's own parse of the query finds), 1 = list table with
+                                 normalize_column_names, 2 = list table in direct mode, 3 = pandas / sqlite (as 1, no length check)
+                                 -> L[opt header; L records; vres (opt L[initialize; index] of the probe variable); opt modifier]
+                                 or L[1; parse error] when the query text is rejected by separate_actions
+   res X = L[0; X] | L[1; L[tag; stmt?]] ; vres X = L[0; X] | L[1; tag]. *)
+From RBQL Require Import Base Sx Parser ParserVars.
+Local Open Scope N_scope.
+
+Definition lang_of_sx (x : sx) : option lang :=
+  match x with A n => Some (if N.eqb n 0 then LPy else LJs) | _ => None end.
+Definition sx_of_strs (l : list str) : sx := sx_of_list sx_of_str l.
+Definition strs_of_sx (x : sx) : option (list str) := list_of_sx str_of_sx x.
+Definition sx_of_N (n : N) : sx := A n.
+
+Definition perr_sx (e : perr) : sx :=
+  match e with
+  | E_more_than_one s => L [A 1; sx_of_nat (stmt_id s)]
+  | E_update_not_first => L [A 2]
+  | E_select_not_first => L [A 3]
+  | E_no_select_update => L [A 4]
+  | E_both_select_update => L [A 5]
+  | E_limit_not_int => L [A 6]
+  | E_join_syntax => L [A 7]
+  | E_update_first_assignment => L [A 8]
+  | E_select_empty => L [A 9]
+  end.
+Definition sx_of_res {T} (f : T -> sx) (r : res T) : sx :=
+  match r with Ok v => L [A 0; f v] | Err e => L [A 1; perr_sx e] end.
+Definition sx_of_vres {T} (f : T -> sx) (r : vres T) : sx :=
+  match r with
+  | VOk v => L [A 0; f v]
+  | VErr V_attr_not_found => L [A 1; A 1]
+  | VErr V_bad_direct_name => L [A 1; A 2]
+  | VErr V_len_mismatch => L [A 1; A 3]
+  end.
+
+Definition actions_sx (a : actions) : sx :=
+  L [ sx_of_option sx_of_str (a_with a);
+      sx_of_option sx_of_str (a_select a);
+      sx_of_option sx_of_N (a_top a);
+      sx_of_bool (a_distinct a);
+      sx_of_bool (a_distinct_count a);
+      sx_of_option sx_of_str (a_update a);
+      sx_of_option sx_of_str (a_where a);
+      sx_of_option (fun p : str * bool => L [sx_of_str (fst p); sx_of_bool (snd p)]) (a_order a);
+      sx_of_option sx_of_str (a_group a);
+      sx_of_option sx_of_str (a_limit a);
+      sx_of_option sx_of_str (a_except a);
+      sx_of_option (fun p : stmt * str => L [sx_of_nat (stmt_id (fst p)); sx_of_str (snd p)]) (a_join a);
+      sx_of_option sx_of_str (a_from a) ].
+
+Definition pairs_sx (l : list (str * str)) : sx :=
+  sx_of_list (fun p : str * str => L [sx_of_str (fst p); sx_of_str (snd p)]) l.
+Definition join_sx (r : str * list (str * str)) : sx := L [sx_of_str (fst r); pairs_sx (snd r)].
+
+(* per-clause results for an accepted query: find_top, update split, join parse, select translation,
+   except list (each computed only where the clause is present) *)
+Definition details_sx (fl : lang) (r : res actions) : sx :=
+  match r with
+  | Err _ => L []
+  | Ok a =>
+      L [ sx_of_res (sx_of_option sx_of_Z) (find_top fl a);
+          sx_of_option (fun t => sx_of_res pairs_sx (update_assignments fl t)) (a_update a);
+          sx_of_option (fun p : stmt * str => sx_of_res join_sx (parse_join_expression fl (snd p))) (a_join a);
+          sx_of_option (fun t => sx_of_res sx_of_str (translate_select_expression fl t)) (a_select a);
+          sx_of_option (fun t => sx_of_strs (except_vars fl t)) (a_except a) ]
+  end.
+
+Definition with2 {T U} (fa : sx -> option T) (fb : sx -> option U) (x : sx) (k : T -> U -> sx) : sx :=
+  match x with
+  | L [a; b] => match fa a, fb b with Some a', Some b' => k a' b' | _, _ => ERR end
+  | _ => ERR
+  end.
+
+Definition ep_cleanup (x : sx) : sx := with2 lang_of_sx str_of_sx x (fun fl t => sx_of_str (cleanup_query fl t)).
+Definition ep_separate (x : sx) : sx :=
+  with2 lang_of_sx str_of_sx x (fun fl t => let (f, ls) := separate_string_literals fl t in L [sx_of_str f; sx_of_strs ls]).
+Definition ep_combine (x : sx) : sx :=
+  with2 str_of_sx strs_of_sx x (fun t ls => sx_of_str (combine_string_literals t ls)).
+Definition ep_parse (x : sx) : sx :=
+  with2 lang_of_sx str_of_sx x (fun fl t =>
+    let p := parse_query fl t in
+    L [sx_of_str (p_clean p); sx_of_str (p_format p); sx_of_strs (p_literals p); sx_of_str (p_format2 p);
+       sx_of_res actions_sx (p_actions p); details_sx fl (p_actions p)]).
+Definition ep_actions (x : sx) : sx :=
+  match x with
+  | L [f; wf; t] =>
+      match lang_of_sx f, bool_of_sx wf, str_of_sx t with
+      | Some fl, Some w, Some t' => let r := separate_actions fl w t' in L [sx_of_res actions_sx r; details_sx fl r]
+      | _, _, _ => ERR
+      end
+  | _ => ERR
+  end.
+Definition ep_update (x : sx) : sx :=
+  with2 lang_of_sx str_of_sx x (fun fl t => sx_of_res pairs_sx (update_assignments fl t)).
+Definition ep_join (x : sx) : sx :=
+  with2 lang_of_sx str_of_sx x (fun fl t => sx_of_res join_sx (parse_join_expression fl t)).
+Definition ep_select (x : sx) : sx :=
+  with2 lang_of_sx str_of_sx x (fun fl t => sx_of_res sx_of_str (translate_select_expression fl t)).
+Definition ep_star_count (x : sx) : sx :=
+  with2 lang_of_sx str_of_sx x (fun fl t => sx_of_str (replace_star_count fl t)).
+Definition ep_except (x : sx) : sx :=
+  with2 lang_of_sx str_of_sx x (fun fl t => sx_of_strs (except_vars fl t)).
+Definition ep_remove_table (x : sx) : sx :=
+  with2 lang_of_sx str_of_sx x (fun fl t => sx_of_str (remove_redundant_input_table_name fl t)).
+
+Definition ep_escape (x : sx) : sx :=
+  with2 N_of_sx str_of_sx x (fun qc n => sx_of_str (escape_column_name qc n)).
+Definition ep_literal (x : sx) : sx :=
+  match str_of_sx x with Some t => sx_of_option sx_of_str (py_literal_value t) | None => ERR end.
+
+Definition vmap_sx (m : vmap) : sx :=
+  sx_of_list (fun e : str * vinfo => L [sx_of_str (fst e); sx_of_bool (fst (snd e)); A (snd (snd e))]) m.
+Definition vmap_of_sx (x : sx) : option vmap :=
+  list_of_sx (fun e => match e with
+                       | L [k; i; A n] => match str_of_sx k, bool_of_sx i with
+                                          | Some k', Some i' => Some (k', (i', n))
+                                          | _, _ => None
+                                          end
+                       | _ => None
+                       end) x.
+Definition source_of_sx (x : sx) : option source :=
+  match x with A n => Some (if N.eqb n 0 then SrcTable true else if N.eqb n 1 then SrcTable false else SrcCsv) | _ => None end.
+Definition ep_varmap (x : sx) : sx :=
+  match x with
+  | L [s; q; p; ns; fl] =>
+      match source_of_sx s, str_of_sx q, N_of_sx p, option_of_sx strs_of_sx ns, option_of_sx nat_of_sx fl with
+      | Some src, Some query, Some prefix, Some names, Some first_len =>
+          sx_of_vres vmap_sx (get_variables_map src query prefix names first_len)
+      | _, _, _, _, _ => ERR
+      end
+  | _ => ERR
+  end.
+Definition ep_header (x : sx) : sx :=
+  match x with
+  | L [k; f; w; recs; ns] =>
+      match N_of_sx k, bool_of_sx f, option_of_sx str_of_sx w, list_of_sx strs_of_sx recs, option_of_sx strs_of_sx ns with
+      | Some kind, Some flag, Some modifier, Some all_records, Some names =>
+          if N.eqb kind 0 then
+            let st := effective flag modifier in
+            L [sx_of_option sx_of_strs (csv_header st all_records); sx_of_list sx_of_strs (csv_records st all_records);
+               sx_of_bool (has_header st); sx_of_bool (emit_first st)]
+          else
+            L [sx_of_option sx_of_strs names; sx_of_list sx_of_strs all_records;
+               sx_of_bool (match names with Some _ => true | None => false end); sx_of_bool true]
+      | _, _, _, _, _ => ERR
+      end
+  | _ => ERR
+  end.
+Definition ep_init_code (x : sx) : sx :=
+  match x with
+  | L [f; m; jm; ls] =>
+      match str_of_sx f, vmap_of_sx m, option_of_sx vmap_of_sx jm, strs_of_sx ls with
+      | Some fmt, Some m', Some jm', Some lits => sx_of_str (variables_init_code fmt m' jm' lits)
+      | _, _, _, _ => ERR
+      end
+  | _ => ERR
+  end.
+Definition ep_probe (x : sx) : sx :=
+  match x with
+  | L [f; A k; A c] =>
+      match lang_of_sx f with
+      | Some fl => L [sx_of_bool (ws fl c); sx_of_bool (ci_eq fl k c); sx_of_bool (dot_ok fl c)]
+      | None => ERR
+      end
+  | _ => ERR
+  end.
+Definition ep_bracket (x : sx) : sx :=
+  match x with
+  | L [A p; m; l] =>
+      match vmap_of_sx m, str_of_sx l with
+      | Some m', Some lit => sx_of_option sx_of_N (eval_bracket_access p m' lit)
+      | _, _ => ERR
+      end
+  | _ => ERR
+  end.
+Definition ep_prefilter (x : sx) : sx :=
+  with2 str_of_sx str_of_sx x (fun q n => sx_of_bool (query_probably_has_dictionary_variable q n)).
+
+Definition ep_c09 (x : sx) : sx :=
+  match x with
+  | L [k; f; q; pv; recs; ns] =>
+      match N_of_sx k, bool_of_sx f, str_of_sx q, str_of_sx pv, list_of_sx strs_of_sx recs, option_of_sx strs_of_sx ns with
+      | Some kind, Some flag, Some query, Some probe, Some all_records, Some names =>
+          let p := parse_query LPy query in
+          match p_actions p with
+          | Err e => L [A 1; perr_sx e]          (* the query does not parse: the implementation must fail too *)
+          | Ok a =>
+              let modifier := a_with a in
+              let '(hdr, records, src, first_len) :=
+                if N.eqb kind 0 then
+                  let st := effective flag modifier in
+                  (csv_header st all_records, csv_records st all_records, SrcCsv, None)
+                else
+                  (names, all_records, SrcTable (negb (N.eqb kind 2)),
+                   if N.eqb kind 3 then None else option_map (@length str) (hd_error all_records)) in
+              let vm := get_variables_map src (p_clean p) 97 hdr first_len in
+              L [sx_of_option sx_of_strs hdr; sx_of_list sx_of_strs records;
+                 sx_of_vres (fun m => sx_of_option (fun v : vinfo => L [sx_of_bool (fst v); A (snd v)]) (map_get probe m)) vm;
+                 sx_of_option sx_of_str modifier]
+          end
+      | _, _, _, _, _, _ => ERR
+      end
+  | _ => ERR
+  end.
 
 Definition dispatch_parser (code : N) (x : sx) : option sx :=
   match code with
+  | 500 => Some (ep_cleanup x)
+  | 501 => Some (ep_separate x)
+  | 502 => Some (ep_combine x)
+  | 503 => Some (ep_parse x)
+  | 504 => Some (ep_actions x)
+  | 505 => Some (ep_update x)
+  | 506 => Some (ep_join x)
+  | 507 => Some (ep_select x)
+  | 508 => Some (ep_star_count x)
+  | 509 => Some (ep_except x)
+  | 510 => Some (ep_remove_table x)
+  | 520 => Some (ep_escape x)
+  | 521 => Some (ep_literal x)
+  | 522 => Some (ep_varmap x)
+  | 523 => Some (ep_header x)
+  | 524 => Some (ep_init_code x)
+  | 525 => Some (ep_probe x)
+  | 526 => Some (ep_bracket x)
+  | 527 => Some (ep_prefilter x)
+  | 528 => Some (ep_c09 x)
   | _ => None
   end.
